@@ -418,7 +418,7 @@ def register_sort_key(E):
     klen = z3.Function('klen', SK, z3.IntSort())
     klast = z3.Function('klast', SK, Str)
     lsk = z3.Function('lsk', Layer, SK)
-    UT = z3.Const('UnitTestsLayer', Layer)
+    UT = z3.Const('UnitTestsLayerObj', Layer)
     OBJ = z3.Const('OBJ', Layer)
     bases_arr = z3.Function('bases_arr', Layer, z3.ArraySort(z3.IntSort(), Layer))
     nb = z3.Function('nb', Layer, z3.IntSort())
@@ -442,7 +442,7 @@ def register_sort_key(E):
                            props=('C10',))
     if plain:
         E.axioms.append(z3.ForAll([i], z3.Implies(z3.And(0 <= i, i < nb(UT)), z3.Select(bases_arr(UT), i) == OBJ)))
-    E.globals['runner.UnitTests'] = lambda eng, st: VObj('Layer', UT)
+    E.globals['runner.UnitTests'] = E.globals['UnitTests'] = lambda eng, st: VObj('Layer', UT)
     E.specfuncs.update({
         'klen': lambda eng, st, kk: VInt(klen(kk.z)),
         'klast': lambda eng, st, kk: VObj('Str', klast(kk.z)),
